@@ -35,9 +35,20 @@ type caseIn struct {
 	BaseBits  int                  `json:"base_bits"`
 	Writers   [][][]c13util.Piece  `json:"writers"`
 	Conn      memws.Options        `json:"conn"`
+	Loopback  string               `json:"loopback,omitempty"` // "gorilla": real gorilla backend over loopback HTTP (loopback.go)
 }
 
 const watchdog = 60 * time.Second
+
+// sigLeak labels a case in which the peer (and the independent decoder) recovered
+// dictionary ++ message for some message: in context-takeover mode Transport.Write compresses
+// with flate.NewWriterDict, whose first block - when DEFLATE chooses a stored block, i.e. for an
+// incompressible message that is large relative to the dictionary - starts at the beginning of
+// the compressor's window and so contains the dictionary.  Independent of concurrency.
+const sigLeak = "F28:takeover-stored-block-emits-dictionary"
+
+// (F29 - compressed Transport.Read stopped before io.EOF, coder/nhooyr then refused the next
+// Reader() - is fixed in /repo; the strict-eof cases are its regression test.)
 
 // guarded runs f under a watchdog; false = did not return in time.
 func guarded(f func()) bool {
@@ -210,7 +221,7 @@ func runCase(ci *caseIn) (term string, observed map[string]interface{}, direct s
 	// independent decoding of the wire, attribution to the written messages
 	dec := newIndep(ci)
 	next := make([]int, len(msgs))
-	var orderT, wireT, dwinT, readsT []string
+	var orderT, leakT, wireT, dwinT, readsT []string
 	decOK := 0
 	leak := false
 	for _, wm := range wire {
@@ -221,6 +232,7 @@ func runCase(ci *caseIn) (term string, observed map[string]interface{}, direct s
 			for w := range msgs {
 				if next[w] < len(msgs[w]) && bytes.Equal(msgs[w][next[w]], out) {
 					orderT = append(orderT, fmt.Sprintf("Some (%d, %d)", w, next[w]))
+					leakT = append(leakT, "false")
 					next[w]++
 					attributed = true
 					decOK++
@@ -229,15 +241,21 @@ func runCase(ci *caseIn) (term string, observed map[string]interface{}, direct s
 			}
 		}
 		if !attributed && good && len(prevWin) > 0 {
-			// known shape F22: the inflated bytes are the dictionary followed by the message
+			// shape of finding F28: the inflated bytes are the dictionary followed by the message
 			for w := range msgs {
 				if next[w] < len(msgs[w]) && bytes.Equal(out, append(append([]byte(nil), prevWin...), msgs[w][next[w]]...)) {
+					orderT = append(orderT, fmt.Sprintf("Some (%d, %d)", w, next[w]))
+					leakT = append(leakT, "true")
+					next[w]++
+					attributed = true
 					leak = true
+					break
 				}
 			}
 		}
 		if !attributed {
 			orderT = append(orderT, "None")
+			leakT = append(leakT, "false")
 			if os.Getenv("C13DEBUG") != "" {
 				fmt.Fprintf(os.Stderr, "wire msg %d: decode ok=%v len(out)=%d len(wire)=%d next=%v\n", len(orderT)-1, good, len(out), len(wm), next)
 			}
@@ -260,11 +278,11 @@ func runCase(ci *caseIn) (term string, observed map[string]interface{}, direct s
 		}
 		return fmt.Sprintf("(Some %d)", *p)
 	}
-	term = fmt.Sprintf("mkWsCase (mkNP %s %s %s) (mkCC %s %d %s %d) %s %s %s %d %d %s %s %d %d %d",
+	term = fmt.Sprintf("mkWsCase (mkNP %s %s %s) (mkCC %s %d %s %d) %s %s %s %s %s %d %d %s %s %d %d %d",
 		comp, optN(ci.Level), optN(ci.Bits),
 		coqfmt.Bool(ci.BaseEn), ci.BaseLevel, coqfmt.Bool(ci.BaseDCT), ci.BaseBits,
-		c13util.WritersTerm(ci.Writers),
-		coqfmt.List(orderT), coqfmt.List(wireT), dec.mode, dec.W, coqfmt.List(dwinT), coqfmt.List(readsT),
+		c13util.WritersTerm(ci.Writers), coqfmt.Bool(ci.Conn.Strict),
+		coqfmt.List(orderT), coqfmt.List(leakT), coqfmt.List(wireT), dec.mode, dec.W, coqfmt.List(dwinT), coqfmt.List(readsT),
 		werrs, tx, rx)
 	observed = map[string]interface{}{
 		"wire_messages": len(wire), "independently_decoded": decOK, "reads_ok": nReadOK, "write_errors": werrs,
@@ -275,7 +293,7 @@ func runCase(ci *caseIn) (term string, observed map[string]interface{}, direct s
 		observed["first_read_error"] = readErr
 	}
 	if leak {
-		observed["sig"] = "F22:flate-dict-stored-block-emits-dictionary"
+		observed["sig"] = sigLeak
 	}
 	return term, observed, ""
 }
@@ -520,21 +538,63 @@ func genConcurrent(r *rng.R, wantMode int) (*caseIn, string, bool) {
 	return ci, "concurrent-" + []string{"off", "per-message", "takeover"}[mode], true
 }
 
+// genIncompressible: ONE writer, context takeover with a small window, a short first message
+// and then pseudo-random messages much larger than the window - the shape in which DEFLATE
+// prefers a stored block (finding F28); sizes are independent of the window on purpose.
+func genIncompressible(r *rng.R) (*caseIn, string, bool) {
+	ci := &caseIn{}
+	genParams(r, ci, 2)
+	if *ci.Level < 2 {
+		ci.Level = ip(2 + r.Intn(8))
+	}
+	ci.Bits = ip([]int{0, 1, 2, 3, 4, 5, 6, 8}[r.Intn(8)])
+	var ms [][]c13util.Piece
+	ms = append(ms, []c13util.Piece{{Kind: "lit", Bytes: r.Bytes(1 + r.Intn(20))}})
+	n := 2 + r.Intn(3)
+	for i := 0; i < n; i++ {
+		var ps []c13util.Piece
+		if r.Bool() {
+			ps = append(ps, c13util.Piece{Kind: "lit", Bytes: r.Bytes(1 + r.Intn(4))})
+		}
+		ps = append(ps, c13util.Piece{Kind: "rnd", Seed: r.U64() % 2147483648, N: []int{40, 64, 100, 300, 1000, 3000}[r.Intn(6)] + r.Intn(17)})
+		if r.Chance(1, 3) {
+			ps = append(ps, c13util.Piece{Kind: "back", D: 1 + r.Intn(30), N: 1 + r.Intn(30)})
+		}
+		ms = append(ms, ps)
+	}
+	ci.Writers = [][][]c13util.Piece{ms}
+	ci.Conn = genConn(r, false)
+	return ci, "takeover-smallwin-incompressible", true
+}
+
 func main() {
 	seed := flag.Uint64("seed", 1, "seed")
 	tier := flag.String("tier", "quick", "quick|thorough")
 	out := flag.String("out", "", "output directory")
 	replay := flag.String("replay", "", "replay file (JSON with an 'input' field)")
-	strict := flag.Int("strict", 0, "number of extra cases whose in-memory Conn enforces coder's rule that a message must be read to io.EOF before the next Reader()")
+	nGorilla := flag.Int("gorilla", -1, "number of loopback cases with the real gorilla backend and concurrent writers (F21); default 0 quick, 30 thorough")
+	strict := flag.Int("strict", 0, "number of additional cases whose in-memory Conn enforces coder's rule that a message must be read to io.EOF before the next Reader()")
 	flag.Parse()
 	w := coqfmt.NewWriter(*out, "C13", "From Iscp Require Import Model.Window.", "ws_case", "ws_judge", 40)
-	empty := "mkWsCase (mkNP CNone None None) (mkCC false 0 false 0) [] [] [] 0 0 [] [] 0 0 0"
+	empty := "mkWsCase (mkNP CNone None None) (mkCC false 0 false 0) [] false [] [] [] 0 0 [] [] 0 0 0"
 
 	add := func(ci *caseIn, kind string, nt bool, sig string) {
-		term, obs, direct := runCase(ci)
+		var term, direct string
+		var obs map[string]interface{}
+		if ci.Loopback == "gorilla" {
+			obs, direct = runLoopbackGorilla(ci)
+			term = empty
+			w.Count(fmt.Sprintf("gorilla-loopback-violated:%v", direct != ""))
+		} else {
+			term, obs, direct = runCase(ci)
+		}
 		if obs != nil {
 			if sg, _ := obs["sig"].(string); sg != "" {
-				sig = sg
+				if sig != "" && sig != sg {
+					sig += "+" + sg
+				} else {
+					sig = sg
+				}
 				w.Count("sig:" + sg)
 			}
 		}
@@ -586,9 +646,9 @@ func main() {
 	}
 
 	r := rng.New(*seed)
-	nSeq, nBig, nConc := 330, 6, 90
+	nSeq, nBig, nConc, nInc := 330, 6, 90, 24
 	if *tier == "thorough" {
-		nSeq, nBig, nConc = 4000, 120, 1200
+		nSeq, nBig, nConc, nInc = 4000, 120, 1200, 400
 	}
 	// the full grid of negotiated settings, one short run each: {"" , per-message, context-takeover}
 	// x level {nil,0..9} x bits {nil,0,1,8,9,15,16,32}
@@ -628,19 +688,54 @@ func main() {
 			add(ci, kind, nt, "")
 		}
 	}
+	// the minimal reproducer of F28: what DialConfig{CompressConfig: {Enable: true, Level: 6}} negotiates
+	// (context takeover, window bits 0 = a 1-byte dictionary), one writer, "a" then 200 pseudo-random bytes
+	add(&caseIn{Comp: "context-takeover", Level: ip(6), Bits: ip(0),
+		Writers: [][][]c13util.Piece{{{{Kind: "lit", Bytes: []byte("a")}}, {{Kind: "rnd", Seed: 7, N: 200}}}}}, "takeover-minimal-incompressible", true, "")
+	for i := 0; i < nInc; i++ {
+		cr := r.Fork()
+		ci, kind, nt := genIncompressible(cr)
+		add(ci, kind, nt, "")
+	}
 	for i := 0; i < nConc; i++ {
 		cr := r.Fork()
 		wm := []int{2, 2, 2, 1, 0}[cr.Intn(5)]
 		ci, kind, nt := genConcurrent(cr, wm)
 		add(ci, kind, nt, "")
 	}
-	for i := 0; i < *strict; i++ {
-		cr := r.Fork()
-		ci, kind, nt := genSequential(cr, 1+cr.Intn(2), false)
-		ci.Conn.Strict, ci.Conn.EOFSeparate = true, true
-		add(ci, "strict-eof-"+kind, nt, "F22:ws-compressed-read-stops-before-eof")
+	// a Conn that, like coder/nhooyr on a fragmented message (every message their own writer
+	// produces), reports io.EOF only on a further Read and refuses the next Reader() until then:
+	// the shape of the fixed finding F29 (regression)
+	nStrict := 16
+	if *tier == "thorough" {
+		nStrict = 300
 	}
-	rule := "grid: every negotiated setting {'',per-message,context-takeover} x clevel {nil,0..9} x cwinbits {nil,0,1,8,9,15,16,32} with random base config, 4 messages; sequential: 3-10 messages with sizes at 0..4, W-1, W, W+1, 2W-1, 2W, 2W+1, 3W+1 and random, content = pseudo-random runs interleaved with copies of earlier content from distances <=W, W, W+1, (W,2W], 2W; bigwin: windows 2^15, 2^16, 2^32 with messages up to 3W; concurrent: 2-4 writer goroutines, in-memory Conn whose Writer() yields/sleeps before taking the message lock; reader chunk sizes {whole,1,7,512,4096}, EOF with or after the last bytes. non-trivial = context-takeover with >=3 messages, or concurrent writers; distinct = distinct Coq case terms"
+	for i := 0; i < nStrict+*strict; i++ {
+		cr := r.Fork()
+		ci, kind, nt := genSequential(cr, []int{1, 2, 2, 0}[cr.Intn(4)], false)
+		ci.Conn.Strict, ci.Conn.EOFSeparate = true, true
+		add(ci, "strict-eof-"+kind, nt, "")
+	}
+	if *nGorilla < 0 {
+		*nGorilla = 0
+		if *tier == "thorough" {
+			*nGorilla = 30
+		}
+	}
+	for i := 0; i < *nGorilla; i++ {
+		cr := r.Fork()
+		ci := &caseIn{Loopback: "gorilla"}
+		k := 2 + cr.Intn(3)
+		for w := 0; w < k; w++ {
+			var ms [][]c13util.Piece
+			for j := 0; j < 40; j++ {
+				ms = append(ms, []c13util.Piece{{Kind: "lit", Bytes: []byte{byte(w), byte(j)}}, {Kind: "rnd", Seed: cr.U64() % 2147483648, N: []int{1, 30, 300, 3000, 20000}[cr.Intn(5)]}})
+			}
+			ci.Writers = append(ci.Writers, ms)
+		}
+		add(ci, "gorilla-loopback-concurrent", true, sigGorilla)
+	}
+	rule := "grid: every negotiated setting {'',per-message,context-takeover} x clevel {nil,0..9} x cwinbits {nil,0,1,8,9,15,16,32} with random base config, 4 messages; sequential: 3-10 messages with sizes at 0..4, W-1, W, W+1, 2W-1, 2W, 2W+1, 3W+1 and random, content = pseudo-random runs interleaved with copies of earlier content from distances <=W, W, W+1, (W,2W], 2W; bigwin: windows 2^15, 2^16, 2^32 with messages up to 3W; smallwin-incompressible: ONE writer, window bits {0..6,8}, a short message then 2-4 pseudo-random messages of 40..3000 bytes (the shape of F28); concurrent: 2-4 writer goroutines, in-memory Conn whose Writer() yields/sleeps before taking the message lock; reader chunk sizes {whole,1,7,512,4096}, EOF with or after the last bytes; strict-eof: sequential cases on a Conn that refuses Reader() until the previous message was read to io.EOF (coder/nhooyr rule). non-trivial = context-takeover with >=3 messages, or concurrent writers; distinct = distinct Coq case terms"
 	if err := w.Flush(*seed, *tier, rule, false, nil); err != nil {
 		fmt.Fprintln(os.Stderr, err)
 		os.Exit(2)
